@@ -95,6 +95,8 @@ def coverage (ty : String) (o : ObjRaw) (raws : List Driver.C01.Raw) : Option St
 def oracle (ty : String) (now : Int) (crlOk : Bool) (o : ObjRaw) (raws : List Driver.C01.Raw) (impl : String) :
     Option String :=
   if impl = "panic" then some "validation panicked"
+  else if impl = "ok EE=refused" then
+    some "accepted although the embedded EE certificate does not validate as an EE certificate under the same issuer (Cert::validate_ee_at refuses it)"
   else if impl ≠ "ok" then none
   else if ty = "roa" ∧ (Rpki.Roa.decodeContent o.obj.content).isNone then
     some "ROA accepted although its eContent is not a well-formed RouteOriginAttestation (version, families, lengths and maxLength within the family)"
